@@ -21,6 +21,7 @@ type AEv struct {
 	Q   int    `json:"q"`
 	Al  string `json:"al"`  // "" d,x,y distinct | "dx" | "dy" | "xy" | "dxy"
 	Pre Dec    `json:"pre"` // destination contents before the call (f = -1: a fresh zero value)
+	H   Dec    `json:"h"`   // Pow only: an UNTRUSTED approximation of ln|x| with ulp error bound (f = -1: none); verified by the spec
 	AOut
 }
 
@@ -133,7 +134,7 @@ func mkA(op string, c Ctx, x, y Dec, q int, al string, pre Dec) AEv {
 	if !binOps[op] {
 		y = x
 	}
-	return AEv{K: "a", Op: op, Ctx: c, X: x, Y: y, Q: q, Al: al, Pre: pre, AOut: runAGuard(op, c, x, y, q, al, pre)}
+	return AEv{K: "a", Op: op, Ctx: c, X: x, Y: y, Q: q, Al: al, Pre: pre, H: none, AOut: runAGuard(op, c, x, y, q, al, pre)}
 }
 
 // runAGuard runs the call under a watchdog: a call that does not return within
@@ -176,7 +177,11 @@ func init() {
 		if err := json.Unmarshal(line, &ev); err != nil {
 			panic(err)
 		}
-		return mkA(ev.Op, ev.Ctx, ev.X, ev.Y, ev.Q, ev.Al, ev.Pre)
+		out := mkA(ev.Op, ev.Ctx, ev.X, ev.Y, ev.Q, ev.Al, ev.Pre)
+		if ev.H.F >= 0 {
+			out.H = lnHint(ev.X, ev.Ctx.P)
+		}
+		return out
 	}
 	drivers["arithS"] = func(g *G) { arithS(g, []string{"add", "sub", "mul", "quo"}, []string{"abs", "neg", "round"}, false) }
 	drivers["arithL"] = func(g *G) { arithL(g, []string{"add", "sub", "mul", "quo", "abs", "neg", "round"}) }
